@@ -394,6 +394,47 @@ def check_rng_binding(rep: Report, ix):
         )
 
 
+def check_variance_evaluated_per_step(rep: Report, ix):
+    """the noise variance may depend on the field and on time: every stochastic stepper evaluates `noise_var(state, t)` inside
+    the step closure (with the step's own state and time), never once in the factory -- a variance frozen at the state the
+    stepper was built from makes every step after the first one add the wrong noise"""
+    import ast
+
+    sites = [
+        ("pde/solvers/euler.py", "EulerSolver._make_single_step_fixed_dt_stochastic"),
+        ("pde/solvers/milstein.py", "MilsteinSolver._make_single_step_fixed_dt_stochastic"),
+        ("pde/solvers/implicit.py", "ImplicitSolver._make_single_step_fixed_dt_stochastic"),
+    ]
+    n = 0
+    for rel, qn in sites:
+        f = ix.func(rel, qn)
+        rep.saw("functions", f.ref)
+        var_names = set()
+        for st in ast.walk(f.node):
+            if isinstance(st, ast.Assign) and isinstance(st.value, ast.Call) and ast.unparse(st.value.func).split(".")[-1] in ("make_noise_variance", "compile_function") and len(st.targets) == 1:
+                t = st.targets[0]
+                if isinstance(t, ast.Name) and "noise_var" in t.id:
+                    var_names.add(t.id)
+        if not var_names:
+            raise AnalysisError(f"{f.ref}: the noise-variance function was not found")
+        nested = {id(x) for g in f.nested() for x in ast.walk(g.node)}
+        outside = [c for c in ast.walk(f.node) if isinstance(c, ast.Call) and isinstance(c.func, ast.Name) and c.func.id in var_names and id(c) not in nested]
+        inside = [c for c in ast.walk(f.node) if isinstance(c, ast.Call) and isinstance(c.func, ast.Name) and c.func.id in var_names and id(c) in nested]
+        n += 1
+        ok = not outside and bool(inside)
+        rep.oblige(f"{qn}: the noise variance is evaluated inside the step closure only", ok, {"in the factory": [ast.unparse(c)[:50] for c in outside], "in the step": len(inside)})
+        if not ok:
+            c = (outside or [f.node])[0]
+            rep.violation(
+                "C13.increment",
+                f"{f.ref}::variance-frozen",
+                f"`{ast.unparse(c)[:60]}` evaluates the noise variance when the stepper is built, not in each step: from the second step on the increment uses the variance of the initial state "
+                "and time instead of sqrt(variance(state, t)*dt/V)" if outside else "the step closure never evaluates the noise variance",
+                line=getattr(c, "lineno", f.node.lineno),
+            )
+    rep.floor("stochastic stepper factories inspected for frozen variances", n, 3)
+
+
 def check(tier: str) -> Report:
     rep = Report("C13", tier, "proof", "abstract interpretation of the stochastic stepping closures with uninterpreted rate/variance/noise; symbolic increment identity; event-order and generator rules")
     rep.explanation = (
@@ -405,15 +446,27 @@ def check(tier: str) -> Report:
         "from source; per-field variances go to the field's own slice."
     )
     ix = get_index()
-    check_explicit_step(rep, ix, "euler-maruyama", "pde/solvers/euler.py", "EulerSolver", "_make_single_step_fixed_dt_stochastic", False)
-    check_explicit_step(rep, ix, "milstein", "pde/solvers/milstein.py", "MilsteinSolver", "_make_single_step_fixed_dt_stochastic", True)
-    check_semi_implicit(rep, ix)
-    check_interpretations(rep, ix)
-    check_gaussian_noise(rep, ix)
-    check_noise_variance(rep, ix)
-    check_dispatch(rep, ix)
+    check_variance_evaluated_per_step(rep, ix)
+    def section(fn, *a):
+        """a construct already in violation may be outside the grammar of the finer rules: that is a note, not an analysis error"""
+        try:
+            fn(rep, ix, *a)
+        except AnalysisError as e:
+            hit = [f_ for f_ in rep.findings if f_.construct.split("::")[0] + "::" + f_.construct.split("::")[1] in str(e)]
+            if not hit:
+                raise
+            rep.note(f"finer rules skipped for a construct already in violation: {str(e)[:200]}")
+
+    section(check_explicit_step, "euler-maruyama", "pde/solvers/euler.py", "EulerSolver", "_make_single_step_fixed_dt_stochastic", False)
+    section(check_explicit_step, "milstein", "pde/solvers/milstein.py", "MilsteinSolver", "_make_single_step_fixed_dt_stochastic", True)
+    section(check_semi_implicit)
+    section(check_interpretations)
+    section(check_gaussian_noise)
+    section(check_noise_variance)
+    section(check_dispatch)
     check_rng_binding(rep, ix)
-    rep.floor("stochastic stepping closures analysed", len(rep.analysed.get("steppers", [])), 3)
+    if not rep.findings:
+        rep.floor("stochastic stepping closures analysed", len(rep.analysed.get("steppers", [])), 3)
     rep.assumptions += [
         "numpy's Generator.standard_normal is trusted; bit-for-bit reproducibility follows from: same generator, one draw of the state's shape per step",
         "the numba backend uses numba's own generator (np.random.randn) and is outside the reproducibility clause",
